@@ -247,6 +247,12 @@ def construct_harness(L, sw, ch):
                     pass
                 except Exception:
                     pass
+            for name in ("data", "sampling_rate", "sample_width", "channels", "start"):
+                try:
+                    delattr(reg, name)
+                    conds["deleting %s raises" % name] = False
+                except Exception:
+                    pass
         r_ = tok.discharge(e, conds, lambda m: mk(m, {"nbytes": nb}, meta))
         r_["outcome"] = out
         return r_
@@ -410,6 +416,12 @@ def replay_fn(c):
                     setattr(r, name, 1)
                     return [("C17: region is mutable", "assignment to %s succeeds" % name)]
                 except dataclasses.FrozenInstanceError:
+                    pass
+            for name in ("data", "sampling_rate", "sample_width", "channels", "start"):
+                try:
+                    delattr(r, name)
+                    return [("C17: region is mutable", "del region.%s succeeds" % name)]
+                except Exception:
                     pass
             return []
         if kind == "eq":
